@@ -646,13 +646,13 @@ class LuaRunner:
         self.ck = ck
         self.bin = binary
 
-    def run(self, lines, timeout, maxstack=None, mem_kb=6 * 1024 * 1024):
+    def run(self, lines, timeout, maxstack=None, mem_kb=6 * 1024 * 1024, batch=1500):
         env = {"GVH_MAXSTACK": str(maxstack)} if maxstack else {}
         # a fresh child every 1500 cases: the harness process keeps ~50 kB per finished runtime, which over tens of
         # thousands of cases looked like an out-of-memory crash of an innocent case (false alarm of the thorough tier)
         out = []
-        for i in range(0, len(lines), 1500):
-            out += vlib.run_lines_resilient(self.bin, ["lua"], lines[i:i + 1500], per_case_timeout=timeout, env=env, mem_kb=mem_kb)
+        for i in range(0, len(lines), batch):
+            out += vlib.run_lines_resilient(self.bin, ["lua"], lines[i:i + batch], per_case_timeout=timeout, env=env, mem_kb=mem_kb)
         return out
 
 
@@ -834,6 +834,50 @@ def run(tier, seed):
             else:
                 ck.count("pd:rejected-later-stage")
 
+    # ------------------------------------------------------------ 2b'. astcomp expression-depth limit (model VM/ExpDepth.v: limit 10000)
+    #      loose tie: a chain of 9000 links is not rejected by this limit, a chain of 11000 links is rejected (by it or an earlier one)
+    chain = [(k, n) for k in ("call", "dot", "index", "method", "concat") for n in (9000, 11000)]
+    co = vlib.run_lines_resilient(gvh, ["lua"], ["x%d %s" % (i, lua_hex(NEST[k](n)[0])) for i, (k, n) in enumerate(chain)], per_case_timeout=120)
+    for (k, n), o in zip(chain, co):
+        r = parse_lua(o)
+        ck.case("chain %s %d" % (k, n), True)
+        too_complex = "expression too complex" in r.get("msg", "")
+        ck.count("expdepth:%s:%d:%s" % (k, n, "too-complex" if too_complex else r["status"]))
+        if r["status"] in ("gopanic", "CRASH", "HANG"):
+            ck.violation("chain template %s:%d: %s %s" % (k, n, r["status"], r.get("msg", "")[:100]),
+                         {"kind": "Go!=S", "engine": "lua", "family": "nest", "label": "%s:%d" % (k, n), "source_bytes": len(NEST[k](n)[0]), "opts": "",
+                          "source": None, "status": r["status"], "message": r.get("msg", "")[:1000]})
+        elif (n == 9000 and too_complex) or (n == 11000 and r["status"] == "ok"):
+            stale.append(("expdepth", "%s %d" % (k, n), o[:300], "model: limit 10000 links"))
+
+    # ------------------------------------------------------------ 2c. exported runtime options must not crash the host
+    RP = ["local function f(n) local c = n return function() c = c + 1 return c end end local s = 0 for i = 1, 50 do s = s + f(i)() end "
+          "local co = coroutine.wrap(function(a) return a * 2 end) return s, co(4), select('#', table.unpack({1, 2, 3}))",
+          "local function fib(n) if n < 2 then return n end return fib(n - 1) + fib(n - 2) end local t = {} for i = 1, 12 do t[i] = fib(i) end "
+          "return table.concat(t, ' '), (pcall(error, 'x')), #string.rep('ab', 10)"]
+    rpl, rpc = [], []
+    for j, src in enumerate(RP):
+        for n in (0, 1, 2, 3, 5, 9, 10, 11, 20, 100):
+            rpl.append("o%d_%d %d %s" % (j, n, n, lua_hex(src)))
+            rpc.append((j, n))
+    rpo = vlib.run_lines_resilient(gvh, ["regpool"], rpl, per_case_timeout=60)
+    ref = {}
+    for (j, n), o in zip(rpc, rpo):
+        ck.case(o.split(" ")[0] + str(j), True)
+        st = o.split(" ")[1] if " " in o else "?"
+        ck.count("regpool:" + st)
+        if st != "ok":
+            k = ck.known_match(lambda k: k["id"] == "C04-regpool-size-option" and n < 10)
+            if k:
+                ck.known_finding(k)
+            else:
+                ck.violation("runtime.New(w, WithRegPoolSize(%d)) makes a plain program end with %s %s" % (n, st, unhex(o.split(" ")[2] if len(o.split(" ")) > 2 else "")[:120]),
+                             {"kind": "Go!=S", "engine": "regpool", "regpoolsize": n, "source": RP[j], "impl": o[:500]})
+        else:
+            ref.setdefault(j, o.split(" ", 2)[2])
+            if o.split(" ", 2)[2] != ref[j]:
+                ck.violation("result depends on WithRegPoolSize(%d)" % n, {"kind": "Go!=S", "engine": "regpool", "regpoolsize": n, "source": RP[j], "impl": o[:500], "expected": ref[j]})
+
     # ------------------------------------------------------------ 3. exploration
     ck.log("lim done: %d cases" % len(lim))
     lr = LuaRunner(ck, gvh)
@@ -973,13 +1017,21 @@ def explore(ck, lr, tier):
     ck.count("lib:functions", len(set(t[0] for t in todo)))
     slines = ["f%d %s cpu=2000000000 mem=1500000000 flags=4" % (i, lua_hex(SWEEP_LUA % (n, a, b, P))) for i, (n, a, b) in enumerate(todo)]
     ck.log("library sweep: %d cases" % len(slines))
-    souts = lr.run(slines, timeout=(60 if quick else 300))
+    souts = lr.run(slines, timeout=(60 if quick else 300), batch=100)     # each case makes hundreds of calls: keep the children short-lived
     for i, (n, a, b) in enumerate(todo):
         res = parse_lua(souts[i]) if i < len(souts) else {"status": "?"}
         ck.count("lib:%s" % res["status"])
         ck.cov["evaluations"] += (b - a)       # calls made inside the case (the case itself is counted below)
         ck.case("lib %s %d %d" % (n, a, b), True)
         if res["status"] in ("gopanic", "CRASH", "HANG", "?"):
+            # first the same case alone in a fresh child: a crash that does not reproduce there is an artefact of a long-lived
+            # harness process (seen once in the thorough tier: the 1162-case child died and an innocent case took the blame)
+            o = lr.run([slines[i]], timeout=300)
+            if parse_lua(o[0])["status"] not in ("gopanic", "CRASH", "HANG", "?"):
+                ck.count("lib:not-reproduced-in-fresh-process")
+                ck.notes.append("sweep case %s %d-%d: %s in a long-lived child, ordinary outcome when re-run alone: %s" %
+                                (n, a, b, res["status"], res.get("msg", "")[:300].replace("\n", " | ")))
+                continue
             # bisect to a single tuple
             lo_, hi_ = a, b
             while lo_ < hi_:
